@@ -1793,8 +1793,14 @@ def _lincomb_impl(a, x1, b, x2, out):
     size = native(x1.size)
 
     if size < THRESHOLD_SMALL:
-        # Faster for small arrays
-        out.data[:] = a * x1.data + b * x2.data
+        # Faster for small arrays. With both scalars zero the result is
+        # zero whatever the operands hold, as in the branches for larger
+        # arrays (``0 * nan`` would keep the ``nan`` of an uninitialized
+        # array, e.g. in ``set_zero()``)
+        if a == 0 and b == 0:
+            out.data[:] = 0
+        else:
+            out.data[:] = a * x1.data + b * x2.data
         return
 
     elif (size < THRESHOLD_MEDIUM or
